@@ -241,3 +241,32 @@ pub fn into_totals(r: &BfsResult, t: &mut Totals) {
         }
     }
 }
+
+/// Runs `f(i)` for i in 0..n on `threads` threads (each thread may build its own non-Send state
+/// through `init`) and returns the results in index order.
+pub fn par_map<T: Send, S>(n: usize, threads: usize, init: impl Fn() -> S + Sync, f: impl Fn(&mut S, usize) -> T + Sync) -> Vec<T> {
+    let next = AtomicUsize::new(0);
+    let out: Mutex<Vec<(usize, T)>> = Mutex::new(Vec::with_capacity(n));
+    std::thread::scope(|scope| {
+        for _ in 0..threads {
+            scope.spawn(|| {
+                install_quiet_panic_hook();
+                let mut st = init();
+                let mut local = vec![];
+                loop {
+                    let lo = next.fetch_add(64, Ordering::SeqCst);
+                    if lo >= n {
+                        break;
+                    }
+                    for i in lo..(lo + 64).min(n) {
+                        local.push((i, f(&mut st, i)));
+                    }
+                }
+                out.lock().unwrap().extend(local);
+            });
+        }
+    });
+    let mut v = out.into_inner().unwrap();
+    v.sort_by_key(|x| x.0);
+    v.into_iter().map(|x| x.1).collect()
+}
